@@ -459,7 +459,7 @@ fn main() {
     // ---------------- model-side correspondence on the skeleton grammar
     let hdr = "From TeraV Require Import Model.ParseDepth Corr.CorrC06.";
     let mut sink = Sink::new(&args.out, "skel", hdr, "check_skel");
-    let n_skel = if thorough { 12000 } else { 1200 };
+    let n_skel = if thorough { 6000 } else { 1200 };
     let cases = skel_cases(&mut rng, n_skel);
     let sj: Vec<J> = cases.iter().map(|c| json!({"name": "t", "src": c.text, "hooks": true})).collect();
     let res = run_children(&args.out, "skel", &sj, "thread");
